@@ -1,6 +1,7 @@
 import WcModel.Properties.C01
 import WcModel.Properties.C01faithful
 import WcModel.Properties.C01read
+import WcModel.Properties.C01win
 #print axioms WcModel.C01.wrap_fullmatch
 #print axioms WcModel.C01.C01_partial
 #print axioms WcModel.C01.oracle_is_spec
@@ -28,3 +29,10 @@ import WcModel.Properties.C01read
 #print axioms WcModel.C01.read_covers_old_exclusions
 #print axioms WcModel.C01.globstar0_needed
 #print axioms WcModel.C01.cfgG_FnX
+#print axioms WcModel.C01.normName_ne_nil
+#print axioms WcModel.C01.normName_head_dot
+#print axioms WcModel.C01.normName_last_nl
+#print axioms WcModel.C01.C01_read_win
+#print axioms WcModel.C01.fnX_unixTwin
+#print axioms WcModel.C01.C01_read_forcewin
+#print axioms WcModel.C01.win_nonvacuous
